@@ -42,7 +42,9 @@ def bounds(run):
           "tiers": TIERS[run.tier]}
 
 
-AUDIOS = OrderedDict([("empty", 0), ("one", 2), ("twohalf", 5), ("endless", None), ("monitor", None)])
+AUDIOS = OrderedDict([("empty", 0), ("one", 2), ("twohalf", 5), ("endless", None), ("monitor", None),
+                      ("tuple-twohalf", 5), ("stream-twohalf", 5), ("iter-twohalf", 5), ("deque-one", 2)])
+CONTAINER_AUDIOS = ("tuple-twohalf", "stream-twohalf", "iter-twohalf", "deque-one")     # the same samples in other containers
 # "monitor": the played iterable is the manager's own input, io.record() - endless, frame j holds 500 + j
 
 
@@ -52,7 +54,16 @@ def audio_items(kind, p, channels):
   if n is None:
     return (base + j for j in itertools.count())
   n = n * channels
-  return [base + j for j in range(n)]
+  items = [base + j for j in range(n)]
+  if kind.startswith("tuple"): return tuple(items)
+  if kind.startswith("stream"):
+    from audiolazy import Stream
+    return Stream(items)
+  if kind.startswith("iter"): return iter(items)
+  if kind.startswith("deque"):
+    from collections import deque
+    return deque(items)
+  return items
 
 
 def expected_items(kind, p, channels, upto=None):
@@ -99,7 +110,8 @@ def state_key(sched):
       f = f.f_back
     ths.append((t.vid, t.pending[0] if t.pending else None, t.pending[4] if t.pending else None, tuple(sig)))
   objs = tuple((o.label, getattr(getattr(o, "owner", None), "vid", None) if hasattr(o, "owner") else None,
-                getattr(o, "flag", None)) for o in VT._objects)
+                getattr(o, "flag", None), getattr(o, "count", None), getattr(o, "value", None),
+                tuple(t["notified"] for t in getattr(o, "_waiters", ()))) for o in VT._objects)
   io = getattr(out, "io", None)
   iost = (None,) if io is None else (io.finished, len(io._threads), len(io._recordings))
   players = tuple((p.halting, p in io._threads if io is not None else None) for p in out.players)
@@ -451,7 +463,7 @@ def programs(nplayers, nops, audios, late_play=True):
 def gen_programs(run):
   t = TIERS[run.tier]
   for wait in (False, True):
-    audios = [a for a in AUDIOS if a != "monitor" and not (wait and a == "endless")]
+    audios = [a for a in AUDIOS if a != "monitor" and a not in CONTAINER_AUDIOS and not (wait and a == "endless")]
     for use_with in (False, True):
       for prog in programs(1, t["one_player"]["ops"], run.rot(audios)):
         yield ([prog, wait, use_with, 1], t["one_player"]["bound"])
@@ -467,6 +479,11 @@ def gen_programs(run):
     for wait in (False, True):
       yield ([[["play", "one"], ["play", "twohalf"]], wait, False, 1], 2)
       yield ([[["play", "empty"], ["play", "one"]], wait, False, 1], 2)
+  # the played iterable in other containers (a tuple, a Stream, a one-shot iterator, a deque)
+  for wait in (False, True):
+    for a in CONTAINER_AUDIOS:
+      yield ([[["play", a]], wait, False, 1], 2)
+    yield ([[["play", "tuple-twohalf"], ["pause", 0], ["resume", 0]], wait, True, 1], 1)
   # a play() that fails (device refused by the backend / unknown format) inside a history of good ones
   for wait in (False, True):
     for how in ("open", "format"):
